@@ -2278,7 +2278,7 @@ static std::map<std::size_t, std::pair<std::wregex, std::wregex> > get_reflow_fo
                                   cpd.reflow_fold_regex.raw.end());
 
          std::wregex criteria(L"\\s*(?:(?:(beg_of_next)|(end_of_prev))_line_regex)"
-                              "\\s*\\[\\s*([0-9]+)\\s*\\]\\s*=\\s*\"(.*)\"\\s*"
+                              "\\s*\\[\\s*([0-9]{1,9})\\s*\\]\\s*=\\s*\"(.*)\"\\s*"
                               "(?=\\r\\n|\\r|\\n|$)");
          std::wsregex_iterator it_regex(raw_wstring.cbegin(), raw_wstring.cend(), criteria);
          std::wsregex_iterator it_regex_end = std::wsregex_iterator();
